@@ -14,6 +14,13 @@ pub struct Interp {
     pub quires: HashMap<i64, QAny>,
 }
 
+pub fn exec_typed_m(t: &str, n: u32, m: u32, op: &str, sp: &str, x: &[u64]) -> Option<Vec<Val>> {
+    if t == "x1" || t == "x2" {
+        return crate::generic::exec_px_m(t, n, m, op, sp, x);
+    }
+    exec_typed(t, n, op, sp, x)
+}
+
 pub fn exec_typed(t: &str, n: u32, op: &str, sp: &str, x: &[u64]) -> Option<Vec<Val>> {
     match t {
         "p8" => fixed::exec_p8(op, sp, x),
@@ -56,7 +63,7 @@ impl Interp {
             }
         }
         let mut extra: Vec<(&str, String)> = Vec::new();
-        for k in ["n", "d", "ra", "rb", "rc", "q", "dom"] {
+        for k in ["n", "m", "d", "ra", "rb", "rc", "q", "dom"] {
             if let Some(v) = ev.get(k) {
                 extra.push((k, v.to_string()));
             }
@@ -102,7 +109,8 @@ impl Interp {
             }
             out = r;
         } else {
-            out = match guarded(|| exec_typed(t, n, op, sp, &x)) {
+            let m = ev["m"].as_u64().unwrap_or(0) as u32;
+            out = match guarded(|| exec_typed_m(t, n, m, op, sp, &x)) {
                 Some(r) => r,
                 None => return (String::new(), Some(format!("harness: unknown op {op}/{sp}/{t}"))),
             };
